@@ -260,7 +260,7 @@ def run(tier, seed):
                 ('long-strings', 1, A), ('long-strings', 2, V),
                 ('nested-vs-direct', 1, A), ('nested-vs-direct', 2, V),
                 ('unregistered-vs-containers', 1, A), ('unregistered-vs-containers', 2, V),
-                ('structseq', 1, A), ('structseq', 2, V),
+                ('structseq', 1, A),
                 ('stdlib-lazy', 1, A), ('stdlib-lazy', 2, V),
                 ('three-threads', 1, A), ('three-threads', 2, V),
                 ('three-threads-mixed', 1, A), ('three-threads-mixed', 2, V)]
